@@ -1,5 +1,6 @@
 """Expand all subcircuits in place in a Circuit."""
 
+from jaqalpaq.error import JaqalError
 from jaqalpaq.core.algorithm.visitor import Visitor
 from jaqalpaq.core.circuit import Circuit
 from jaqalpaq.core.block import BlockStatement, LoopStatement
@@ -58,6 +59,7 @@ class SubcircuitExpander(Visitor):
         self.prepare_def = prepare_def
         self.measure_def = measure_def
         self.macros = {}
+        self.macro_names = set()
 
     def visit_default(self, obj):
         """By default we leave all objects alone. Note that the object is not copied."""
@@ -67,6 +69,7 @@ class SubcircuitExpander(Visitor):
         new_circuit = Circuit(native_gates=circuit.native_gates)
         # Subcircuit blocks may also appear in the bodies of macros.
         self.macros = {}
+        self.macro_names = set(circuit.macros)
         for name, macro in circuit.macros.items():
             self.macros[name] = self.visit(macro)
         new_circuit.macros.update(self.macros)
@@ -96,6 +99,12 @@ class SubcircuitExpander(Visitor):
             return self.process_non_subcircuit_block(block)
 
     def process_subcircuit(self, block):
+        for gate_def in (self.prepare_def, self.measure_def):
+            if gate_def.name in self.macro_names:
+                # The gate we insert would be read as a call of that macro.
+                raise JaqalError(
+                    f"Cannot bound a subcircuit with {gate_def.name}: it is the name of a macro"
+                )
         statements = [
             self.prepare_def(),
             *(self.visit(stmt) for stmt in block.statements),
